@@ -91,6 +91,30 @@ func runC07(c *Ctx) {
 	F := model.FindFields(c.P)
 	R.Rule("C07.R7", "URLs the policy allows are not rejected: with URL checking on, validURL returns false only for a tabled reason — white space outside a data: URL, a parse error, a non-empty scheme not admitted by the scheme table / patterns / custom checks, or a scheme-less URL while relative URLs are off or the re-serialised URL is empty")
 	c03ValidURL(c, F, "C07.R7")
+	R.Rule("C07.R13", "every documented data-* name passes (= the language of C02.R6, the other inclusion): the key language isDataAttribute accepts contains data-<non-empty, no upper case, no ';', not starting with xml> — decided exactly on the function's regexps and segmentation")
+	{
+		sub := &Ctx{P: c.P, R: newScratchReport(), Tier: c.Tier, VerifDir: c.VerifDir}
+		c02DataAttr(sub, "C07.R13")
+		n13 := 0
+		for _, o := range sub.R.Obls {
+			if o.Rule != "C07.R13" && o.Status == "discharged" {
+				continue
+			}
+			n13++
+			k := strings.TrimPrefix(strings.TrimPrefix(o.Key, "C07.R13|"), "C02.R6|")
+			switch o.Status {
+			case "discharged":
+				R.OK("C07.R13", k, o.Construct, o.Pos, o.Reason)
+			case "undecided":
+				R.Unknown("C07.R13", k, o.Construct, o.Pos, o.Reason)
+			default:
+				if o.Rule == "C07.R13" {
+					R.Fail("C07.R13", k, o.Construct, o.Pos, o.Reason)
+				}
+			}
+		}
+		R.Role("C07.R13", "language comparison of isDataAttribute", n13, 1)
+	}
 	R.Rule("C07.R12", "attribute values are rewritten only where the policy says so (= C20.R2, cited): apart from the appended rel tokens every store to an attribute's Val in sanitizeAttrs is a constant, a projection of the old value, or the result of validURL / the src rewriter — a value re-assembled by the sanitiser (split and re-joined, re-cased, re-quoted) no longer passes unchanged")
 	{
 		sub := &Ctx{P: c.P, R: newScratchReport(), Tier: c.Tier, VerifDir: c.VerifDir}
